@@ -135,7 +135,7 @@ func selectorImpls(p *Program) []*ssa.Function {
 	for k := 0; k < it.NumMethods(); k++ {
 		for _, f := range p.implementations(nt, it.Method(k)) {
 			f = p.unwrap(f)
-			if f.Synthetic == "" {
+			if f.Synthetic == "" && !delegatingSelector(p, f) {
 				out = append(out, f)
 			}
 		}
@@ -143,6 +143,57 @@ func selectorImpls(p *Program) []*ssa.Function {
 	out = dedupFuncs(out)
 	sort.Slice(out, func(i, j int) bool { return out[i].Pos() < out[j].Pos() })
 	return out
+}
+
+// delegatingSelector: a RouteSelector that selects nothing itself: every result it returns is the corresponding
+// result of one call of another RouteSelector's SelectRoute (a wrapper that observes, measures, logs). The wrapped
+// selector is what the rules examine.
+func delegatingSelector(p *Program, f *ssa.Function) bool {
+	if f.Name() != "SelectRoute" || f.Blocks == nil {
+		return false
+	}
+	var inner *ssa.Call
+	n := 0
+	eachInstr(f, func(i ssa.Instruction) {
+		if call, ok := i.(*ssa.Call); ok && call.Call.IsInvoke() && call.Call.Method.Name() == "SelectRoute" && isRestfulNamed(call.Call.Value.Type(), "RouteSelector") {
+			inner = call
+			n++
+		}
+	})
+	if n != 1 {
+		return false
+	}
+	// called with this call's own arguments
+	for k, a := range inner.Call.Args {
+		if k+1 >= len(f.Params) || strip(a) != ssa.Value(f.Params[k+1]) {
+			return false
+		}
+	}
+	rets := returnsOf(f)
+	if len(rets) == 0 {
+		return false
+	}
+	for _, r := range rets {
+		if len(r.Results) != 3 {
+			return false
+		}
+		for k, res := range r.Results {
+			ok := false
+			for _, src := range p.sources(resultAt(r, k), provOpt{ThroughCells: true}) {
+				if ex, isEx := strip(src).(*ssa.Extract); isEx && ex.Tuple == ssa.Value(inner) && ex.Index == k {
+					ok = true
+				} else {
+					ok = false
+					break
+				}
+			}
+			_ = res
+			if !ok {
+				return false
+			}
+		}
+	}
+	return true
 }
 
 func ruleC01b(c *Ctx) {
